@@ -561,7 +561,7 @@ pub fn jobs_for(prop: &str, thorough: bool) -> Vec<Job> {
                     c2.dups = true;
                     c2.merges = true;
                     c2.policy = 255;
-                    js.push(job(s, "weakest discipline + merges, causal observers", c2, sw(6, Delivery::Causal, 0), 800));
+                    js.push(job(s, "weakest discipline + merges, causal observers", c2, sw(6, Delivery::Causal, 0), 3000));
                 }
             }
         }
